@@ -105,9 +105,9 @@ func cmdCheck(args []string) int {
 		seed, _ = strconv.Atoi(s)
 	}
 	if *timeout == 0 {
-		*timeout = 20
+		*timeout = 150
 		if *tier == "thorough" {
-			*timeout = 60
+			*timeout = 300
 		}
 	}
 	t0 := time.Now()
